@@ -39,7 +39,7 @@ BUDGET = {"quick": (160, 20, 1500), "thorough": (1200, 40, 12000)}  # machines, 
 
 NAMES = ["uuid", "date-time", "my_format", "email", "x", "", "ipv4", "日付", "a b", "UUID", "date_time"]
 PREDS = [("always",), ("never",), ("len_mod", 2, 0), ("len_mod", 3, 1), ("contains", "a"), ("contains", "-")]
-KINDS = ["String", "Element", "parsed-untyped", "parsed-string"]
+KINDS = ["String", "Element", "parsed-untyped", "parsed-string", "String+enum", "Element+const", "parsed+enum"]
 
 
 def make_pred(spec):
@@ -52,8 +52,16 @@ def make_pred(spec):
     return lambda s: spec[1] in s
 
 
-def element(kind, name=None):
+def element(kind, name=None, value=None):
     kw = {} if name is None else {"format": name}
+    if "+" in kind:
+        # the checked value itself is a member of the literal keyword, so only the format can reject it
+        literal = copy.deepcopy(value)
+        if kind == "String+enum":
+            return String(enum=[literal, "other"], **kw)
+        if kind == "Element+const":
+            return Element(const=literal, **kw)
+        return parse_element({"enum": ["zzz", literal], **kw})
     if kind == "String":
         return String(**kw)
     if kind == "Element":
@@ -89,10 +97,10 @@ class Harness:
             self.model[op["name"]] = spec
             return []
         name, value, kind = op["name"], op["value"], op["kind"]
-        base = observe.verdict(element(kind), value)
+        base = observe.verdict(element(kind, None, value), value)
         with warnings.catch_warnings(record=True) as caught:
             warnings.simplefilter("always")
-            el = element(kind, name)
+            el = element(kind, name, value)
             arg = copy.deepcopy(value)
             try:
                 el(arg)
@@ -139,6 +147,8 @@ class Machine(RuleBasedStateMachine):
         self.h = Harness()
 
     def _do(self, op):
+        if runner.shrink_budget_exceeded(self._sink):
+            return
         finished, fails = runner.time_limited(lambda: self.h.apply(op), self._stats, "step")
         if not finished:
             return
